@@ -130,6 +130,11 @@ class Topo:
             u, d = op["up"], op["down"]
             self.downs[u].remove(d)
             self.ups[d].remove(u)
+        elif k == "destroy" and "streams" in op:
+            d = op["node"]
+            for u in op["streams"]:
+                self.downs[u].remove(d)
+                self.ups[d].remove(u)
         elif k == "destroy":
             d = op["node"]
             for u in list(self.ups[d]):
@@ -173,7 +178,13 @@ def choose_op(rng, topo, st):
             if d not in topo.downs[u]:
                 return {"op": "disconnect", "up": u, "down": d}     # absent edge: must raise, nothing changes
     if r < 0.94:
-        return {"op": "destroy", "node": rng.choice(held_alive)}
+        d = rng.choice(held_alive)
+        if nodes[d]["kind"] != "sink" and topo.ups[d] and all(u in topo.held and u not in topo.dead for u in topo.ups[d]) and rng.random() < 0.4:
+            # destroy(streams=<a selection of the current parents, possibly empty>)
+            ups_d = list(dict.fromkeys(topo.ups[d]))
+            sel = [u for u in ups_d if rng.random() < 0.5]
+            return {"op": "destroy", "node": d, "streams": sel, "form": rng.choice(["list", "tuple"])}
+        return {"op": "destroy", "node": d}
     cand = [i for i in held_alive]
     return {"op": "drop", "node": rng.choice(cand)}
 
@@ -383,7 +394,7 @@ def compare_links(case, obs, answers):
 
 def evaluate(ctx, case, obs, answers):
     for op in case["ops"]:
-        ctx.count("op:" + op["op"])
+        ctx.count("op:" + op["op"] + (":selection-%d" % len(op["streams"]) if op["op"] == "destroy" and "streams" in op else ""))
     for n in case["nodes"]:
         ctx.count("kind:" + n["kind"])
     edits = sum(1 for op in case["ops"] if op["op"] in ("connect", "disconnect", "destroy", "drop"))
